@@ -65,7 +65,7 @@ def default_programs(ctx, rng, th, name="mcdef", kinds=None):
     """Histories that mix constructor-built entries with entries obtained from the entry types' Default: every such
     history of MC_Tables to depth 3 (2 with the quick tier's full menus), seeded random ones, and one long one per table."""
     kinds = kinds or sorted(schema.DEFAULTS)
-    progs = mc_replays(ctx, kinds, 3 if th else 2, workers=8, maxref=1, salts=(1,), name=name, invs=DEFAULT_INVS, defaults=True)
+    progs = mc_replays(ctx, kinds, 3 if (th or len(kinds) == 1) else 2, workers=8, maxref=1, salts=(1,), name=name, invs=DEFAULT_INVS, defaults=True)
     progs = [p for p in progs if any(o["op"] == "add_default" for o in p["ops"])]
     progs += random_programs(rng, kinds, 600 if th else 120, [1, 2, 3, 5, 9, 20], defaults=True)
     for k in kinds:
